@@ -28,6 +28,15 @@ theorem getI_neg_one {α : Type} (xs : List α) : Py.getI? xs (-1) = xs.getLast?
   | nil => simp
   | cons a as => simp [List.getLast?_eq_getElem?]
 
+/-- `xs[len(xs) - 1]` -/
+theorem getI_length_sub_one {α : Type} (xs : List α) : Py.getI? xs ((xs.length : Int) - 1) = xs.getLast? := by
+  cases xs with
+  | nil => simp [Py.getI?]
+  | cons a as =>
+    have h : (((a :: as).length : Nat) : Int) - 1 = ((as.length : Nat) : Int) := by simp
+    rw [h]
+    simp [Py.getI?, List.getLast?_eq_getElem?]
+
 /-- `xs[i]` for a non-negative `i` -/
 theorem getI_nonneg {α : Type} (xs : List α) (i : Int) (n : Nat) (h : i = (n : Int)) : Py.getI? xs i = xs[n]? := by
   subst h; simp [Py.getI?]
